@@ -251,6 +251,52 @@ type c13Scenario struct {
 	Par   int   `json:"par"`
 }
 
+// c13ActiveHost: a manager with a short cleanup period and one host that is used continuously (gaps far below
+// the period): the host must keep its bucket (and with it its penalty and token debt) across cleanup ticks.
+func c13ActiveHost(rep *childReport, seed int64, idx int) {
+	rng := rand.New(rand.NewSource(vc.DeriveSeed(seed, "C13", "active", idx)))
+	period := 400 * time.Millisecond
+	ctx, cancel := context.WithCancel(context.Background())
+	defer cancel()
+	bm := ratelimiter.NewBucketManager(ctx, 4, 50, 1000, period)
+	defer bm.Close()
+	host := fmt.Sprintf("busy%d.example", idx)
+	bm.Wait(host)
+	orig := bm.VerifBucket(host)
+	var maxGap time.Duration
+	last := time.Now()
+	start := last
+	replacedAfter := time.Duration(-1)
+	for time.Since(start) < 3*period+time.Duration(rng.Intn(200))*time.Millisecond {
+		switch rng.Intn(3) {
+		case 0:
+			bm.Wait(host)
+		case 1:
+			bm.OnSuccess(host)
+		default:
+			bm.AdjustOnFailure(host, 404)
+		}
+		now := time.Now()
+		if g := now.Sub(last); g > maxGap {
+			maxGap = g
+		}
+		last = now
+		if replacedAfter < 0 && bm.VerifBucket(host) != orig {
+			replacedAfter = now.Sub(start)
+		}
+		time.Sleep(time.Duration(5+rng.Intn(20)) * time.Millisecond)
+	}
+	rep.event("active_host_runs", 1)
+	if maxGap > period/2 {
+		rep.inconclusive("active-host-gap-too-long") // the harness itself was descheduled for too long: no verdict
+		return
+	}
+	rep.distinct("active-host/kept-bucket")
+	if replacedAfter >= 0 {
+		rep.violation("bucket-replaced-while-host-in-use", fmt.Sprintf("host %s was used every %v or less, yet its bucket was dropped and recreated after %v (cleanup period %v): penalties, reduced rate and token debt of an active host are forgotten", host, maxGap, replacedAfter, period), nil)
+	}
+}
+
 func c13Child(scPath string) int {
 	var sc c13Scenario
 	if err := readJSON(scPath, &sc); err != nil {
@@ -263,6 +309,9 @@ func c13Child(scPath string) int {
 		}
 	})
 	parallel(sc.N, sc.Par, func(i int) { c13Sequence(rep, sc.Seed, sc.First+i) })
+	for i := 0; i < 2; i++ {
+		c13ActiveHost(rep, sc.Seed, sc.First+i)
+	}
 	rep.Evaluations = rep.Events["sequences"]
 	rep.write(os.Getenv("VZ_CHILD_DIR"))
 	return 0
